@@ -15,6 +15,8 @@
      - glob: which of the three generated patterns matches a path (depth + extension).
    For the `jl` kind the model runs on the real bytes of the file: `lines`, `blank_line` and a
    strict parser for the one line shape the generator emits ({"id":N,"s":"alnum"}). *)
+From Coq Require Import Floats.
+From Coq Require Uint63.
 From Coq Require Import List ZArith NArith Bool String.
 From IB Require Import Util.J IO.Shards IO.Jsonl.
 Import ListNotations.
@@ -206,6 +208,17 @@ Fixpoint min_first (fuel : nat) (l : list (list Z * list Z)) : list (list Z * li
           m :: min_first f (filter (fun y => negb (zlist_eqb (fst y) (fst m))) l)
       end
   end.
+
+(* ---------- KNOWN-FINDING class: floats that serde_json's default parser does not read back ----------
+   serde_json (without its `float_roundtrip` feature) parses the decimal significand into a u64 and
+   computes (significand as f64) / 10^k: two roundings. For an integer-valued f64 k (printed as
+   "<digits>.0") that is fl(fl(10*|k|) / 10); the class is exactly the k for which this differs
+   from k. Executed with Coq's primitive floats (binary64, round to nearest even). *)
+Definition json_float_exact (k : Z) : bool :=
+  let a := Z.abs k in
+  PrimFloat.eqb
+    (PrimFloat.div (PrimFloat.of_uint63 (Uint63.of_Z (10 * a))) (PrimFloat.of_uint63 (Uint63.of_Z 10)))
+    (PrimFloat.of_uint63 (Uint63.of_Z a)).
 
 (* ---------- the check ---------- *)
 Definition all_true (l : list bool) : bool := forallb (fun b => b) l.
@@ -408,5 +421,14 @@ Definition check_C09 (kind : string) (input output : J) : verdict :=
         | None => malformed
         end
     | _ => malformed
+    end
+  else if String.eqb kind "jf" then
+    match input, output with
+    | JL [JI k], JL [tag; JL [JB ej; JB ec; JB ep]] =>
+        if (Z.abs k <? 9007199254740992) then
+          let m := json_float_exact k in
+          V (jtag_is "ok" tag && Bool.eqb ej m && ec && ep) (ej && ec && ep) (negb m) false
+        else malformed
+    | _, _ => malformed
     end
   else malformed.
